@@ -18,7 +18,7 @@ import (
 func init() { register("C10", true, checkC10) }
 
 func checkC10(p *Prog, r *Report) {
-	r.Explain("CONS: every path through the body of ScanJPEG's marker loop — with the marker handlers inlined, paths that return ending the scan exempt — is enumerated and the byte counts it discards are summed as affine expressions in S = int(jr.size): the sum must be S + 2 for a length-bearing marker, 2 for SOI/EOI, 6 for DRI. A callback counts as consuming the window it was declared: ExifLength of the header for the Exif callback (the property's own proviso), limit − N for the io.LimitedReader given to the XMP callback whose residue N must then be discarded; the declared windows must themselves be S − 2 − len(prefix). Arithmetic that can wrap in a narrow type makes the amount undecided (a violation). ACC: on the same paths the amount added to jr.discarded equals the amount consumed, and only discard/peek touch the buffered reader. PFX: every string(buf[a:b]) == literal recogniser has b − a == len(literal) and starts after the 4 bytes of marker and length. MARKER: the Exif and XMP hand-offs are reached only under marker == APP1 and the matching recogniser; the >>4 dispatch constants agree with the marker constants. WINDOW: when nextMarker reports a marker, jr.buf is the full result of the look-ahead peek taken at that marker. HDR: the Exif header comes from the payload's own TIFF header with jr.discarded as its absolute offset. Behaviour over all marker sequences (fill bytes, nested thumbnails) is not decided — only these per-segment invariants.")
+	r.Explain("CONS: every path through the body of ScanJPEG's marker loop — with the marker handlers inlined, paths that return ending the scan exempt — is enumerated and the byte counts it discards are summed as affine expressions in S = int(jr.size): the sum must be S + 2 for a length-bearing marker, 2 for SOI/EOI, 6 for DRI. A callback counts as consuming the window it was declared: ExifLength of the header for the Exif callback (the property's own proviso), limit − N for the io.LimitedReader given to the XMP callback whose residue N must then be discarded; the declared windows must themselves be S − 2 − len(prefix). Arithmetic that can wrap in a narrow type makes the amount undecided (a violation). ACC: on the same paths the amount added to jr.discarded equals the amount consumed, and only discard/peek touch the buffered reader. PFX: every string(buf[a:b]) == literal recogniser has b − a == len(literal) and starts after the 4 bytes of marker and length. MARKER: the Exif and XMP hand-offs are reached only under marker == APP1 and the matching recogniser; the >>4 dispatch constants agree with the marker constants. WINDOW: when nextMarker reports a marker, jr.buf is the full result of the look-ahead peek taken at that marker. STOP: every return inside the marker loop is under marker == DQT, DHT or EOI (the scan never ends early because of what was already seen). HDR: the Exif header comes from the payload's own TIFF header with jr.discarded as its absolute offset. Behaviour over all marker sequences (fill bytes, nested thumbnails) is not decided — only these per-segment invariants.")
 	r.Trusted("bufio Peek/Discard all-or-error", "JPEG: SOI/EOI carry no length, DRI has the fixed length 4; APP1 Exif prefix \"Exif\\0\\0\", XMP prefix \"http://ns.adobe.com/xap/1.0/\\0\"")
 	rulePathSum(p, r)
 	rulePFX(p, r, "jpeg", 4)
@@ -26,6 +26,8 @@ func checkC10(p *Prog, r *Report) {
 	ruleWindow(p, r)
 	ruleHDR(p, r, "jpeg")
 	ruleJpegOwn(p, r)
+	ruleStop(p, r)
+	r.Floor("STOP", 1)
 	r.Floor("CONS", 8)
 	r.Floor("ACC", 3)
 	r.Floor("PFX", 1)
